@@ -147,7 +147,7 @@ def smoke(prop, cfg, limit=60, seed=20260929):
     return rep, fails, rep['model_failures']
 
 
-def directed(prop, cfg, notes, n=6000, cap=60):
+def directed(prop, cfg, notes, n=6000, cap=150):
     """Directed search: expand thousands of compile-ready random items (gen/bgen.py) with the real macro (hook) and the
     model; the ones on which the two differ for this property are compile-ready inputs on which the code no longer does
     what the model does. Returns [(name, transformed item)]."""
@@ -176,7 +176,8 @@ def directed(prop, cfg, notes, n=6000, cap=60):
     neg = [it for it in out if getattr(it, 'expect_error', None)]
     neg.sort(key=lambda it: ('Wr<' not in it.rust(), len(it.rust())))
     out = [it for it in out if not getattr(it, 'expect_error', None)]
-    pickd = neg[:24] + out[:cap // 2] + out[cap // 2::max(1, (len(out) - cap // 2) // (cap // 2) or 1)][:cap // 2]
+    inh = [it for it in out if 'Inh' in it.rust()][:30]     # inherent-method field types: where fqs vs method call is observable
+    pickd = neg[:24] + inh + out[:cap // 2] + out[cap // 2::max(1, (len(out) - cap // 2) // (cap // 2) or 1)][:cap // 2]
     return [('directed', bharness.b_transform(it)) for it in pickd]
 
 
